@@ -240,7 +240,7 @@ fn all_offsets(step_min: i64) -> Vec<i64> {
 }
 
 pub fn run(r: &Report) {
-    r.set_rule("decision = (now instant in a zone spelling, offset string, `to` value); grid: 9 instants x 3 zone spellings x all offsets -12:00..+14:00 (quick: 15-minute steps, thorough: 1-minute steps) x {+HH:MM,+HHMM} x 25 second-resolution deltas with `to` = wall-clock rendering of now+delta at the offset; plus malformed `to` classes x all offsets x {now = year 9000} and unparseable offsets x {expired, malformed} `to`; each decision observed through is_removal and through clean on a probe; plus monotonicity on a multi-element document over a now-grid; non-trivial = distinct decisions with |delta|<=1 or whose date at the offset differs from the UTC date, and all malformed decisions");
+    r.set_rule("decision = (now instant in a zone spelling, offset string, `to` value); grid: 9 instants x 3 zone spellings x all offsets -12:00..+14:00 (quick: 15-minute steps, thorough: 1-minute steps) x {+HH:MM,+HHMM} x 25 second-resolution deltas with `to` = wall-clock rendering of now+delta at the offset; current instants with a fraction of a second (.4 .5 .6 .999999999) x deltas 0, +-1, +-2; plus malformed `to` classes x all offsets x {now = year 9000} and unparseable offsets x {expired, malformed} `to`; each decision observed through is_removal and through clean on a probe; plus monotonicity on a multi-element document over a now-grid; non-trivial = distinct decisions with |delta|<=1 or whose date at the offset differs from the UTC date, and all malformed decisions");
     r.assume("chrono leniencies the statement does not name (second 60, unpadded fields, extra whitespace, '+09' / '+25:00' offsets) are not asserted either way");
     let offs = all_offsets(if r.tier == Tier::Quick { 15 } else { 1 });
     let nows: Vec<i64> = NOWS_UTC.iter().map(|s| parse_rfc3339(s).unwrap()).collect();
@@ -265,6 +265,30 @@ pub fn run(r: &Report) {
         &|| r.stopped(),
     );
     r.expect_count("well-formed decision grid", expected, counted);
+    // --- current instants with a fraction of a second, right at the boundary
+    let fracs = [".4", ".5", ".6", ".999999999"];
+    let near: Vec<i64> = vec![0, 1, -1, 2, -2];
+    let radices = [nows.len(), offs.len(), fracs.len(), near.len()];
+    let expected: u64 = radices.iter().map(|&x| x as u64).product();
+    let counted = explore_product(
+        &radices,
+        || r.local(),
+        |l: &mut Local, dg| {
+            let now = nows[dg[0]];
+            let off = offs[dg[1]];
+            let delta = near[dg[3]];
+            let whole = fmt_rfc3339(now, 0);
+            // 2021-06-15T12:00:00+00:00 -> 2021-06-15T12:00:00.6+00:00
+            let d = Decision {
+                now: format!("{}{}{}", &whole[..19], fracs[dg[2]], &whole[19..]),
+                off: fmt_offset(off, true),
+                to: Some(Some(render_wall(now + delta + off))),
+            };
+            eval(l, &d, true, if delta <= 0 { "fraction-expired" } else { "fraction-future" });
+        },
+        &|| r.stopped(),
+    );
+    r.expect_count("fractional current instants", expected, counted);
     // --- malformed `to` x offsets, far-future now
     let far = ["9000-01-01T00:00:00Z", "2024-01-01T00:00:00+09:00"];
     let mut tos: Vec<Option<Option<String>>> = vec![None, Some(None)];
